@@ -10,6 +10,7 @@ import (
 	"sort"
 	"strings"
 	"testing"
+	"time"
 
 	"verifharness/internal/evid"
 	"verifharness/internal/memstore"
@@ -86,6 +87,8 @@ func mustHash(s string) model.Hash {
 type Sub struct {
 	ch    <-chan *wire.BlockHeader
 	chain []model.Hash // index = height
+	// received while a submission was still in progress (real-depth stream leg)
+	pending []*wire.BlockHeader
 }
 
 // Inst is one repository instance with the model's view of what it accepted and must still hold.
@@ -127,16 +130,19 @@ type Focus struct {
 }
 
 type M struct {
-	t          *rapid.T
-	k          *evid.Case
-	f          Focus
-	mbd        int
-	depth      int // hook prune depth
-	tree       *model.Tree
-	insts      []*Inst
-	ctr        uint32
-	base       int // number of base-chain headers (real-depth regime)
-	finalCheck bool
+	t              *rapid.T
+	k              *evid.Case
+	f              Focus
+	mbd            int
+	depth          int // hook prune depth
+	tree           *model.Tree
+	insts          []*Inst
+	ctr            uint32
+	base           int // number of base-chain headers (real-depth regime)
+	bulks          int
+	actionsEnabled map[string]int // the weights of the running leg (operations it includes)
+	bulk           model.Set      // headers added by bulk growth: checked like base-chain headers (sampled heights)
+	finalCheck     bool
 
 	// history statistics for the non-trivial rules
 	reorgs, siblingReorgs, maintBetweenReorgs, heavierShorter, firstHeaderReorgs int
@@ -480,8 +486,22 @@ func (m *M) submit(raw model.RawHeader, what string) {
 			wasAcc, wasHeld = inst.acc[n], inst.held[n]
 		}
 		var err error
-		if p := vt.Catch(func() { err = inst.repo.ProcessHeader(vt.Ctx(), toWire(&raw)) }); p != nil {
-			m.fail(inst, "ProcessHeader(%s) panicked: %v", what, p)
+		var pn interface{}
+		if m.f.Stream && m.f.RealDepth && len(inst.subs) > 0 {
+			// A reorganisation across the retained depth announces more headers than the
+			// subscriber channels buffer (10000) while the repository lock is held: like any real
+			// subscriber, the harness keeps receiving while the submission is in progress.
+			done := make(chan struct{})
+			go func() {
+				defer close(done)
+				pn = vt.Catch(func() { err = inst.repo.ProcessHeader(vt.Ctx(), toWire(&raw)) })
+			}()
+			m.drainWhile(inst, done)
+		} else {
+			pn = vt.Catch(func() { err = inst.repo.ProcessHeader(vt.Ctx(), toWire(&raw)) })
+		}
+		if pn != nil {
+			m.fail(inst, "ProcessHeader(%s) panicked: %v", what, pn)
 		}
 		v := classify(err)
 		verdicts = append(verdicts, v)
@@ -835,7 +855,7 @@ func (m *M) checkLookups(inst *Inst, full bool) {
 		}
 		var sel []*model.Node
 		for _, n := range nodes {
-			if n.Seq > m.base || sampled[n.Height] {
+			if (n.Seq > m.base && !m.bulk[n]) || sampled[n.Height] {
 				sel = append(sel, n)
 			}
 		}
@@ -966,11 +986,21 @@ func (m *M) checkStream(inst *Inst) {
 	for si, s := range inst.subs {
 	drain:
 		for {
-			select {
-			case h, ok := <-s.ch:
-				if !ok {
+			var h *wire.BlockHeader
+			if len(s.pending) > 0 {
+				h, s.pending = s.pending[0], s.pending[1:]
+			} else {
+				select {
+				case x, ok := <-s.ch:
+					if !ok {
+						break drain
+					}
+					h = x
+				default:
 					break drain
 				}
+			}
+			{
 				raw := fromWire(h)
 				hash := raw.Hash()
 				// attach to previous-block hash, discarding what was above it
@@ -993,8 +1023,6 @@ func (m *M) checkStream(inst *Inst) {
 				if n := m.tree.ByHash[hash]; n == nil || !model.IsAncestorOrEqual(n, tip) {
 					m.fail(inst, "subscriber %d was sent %s which is not on the best chain (tip %s)", si, m.label(hash), tip.Label)
 				}
-			default:
-				break drain
 			}
 		}
 		if len(s.chain) != len(chain) {
@@ -1004,6 +1032,33 @@ func (m *M) checkStream(inst *Inst) {
 			if s.chain[h] != chain[h].Hash {
 				m.fail(inst, "subscriber %d has %s at height %d, repository reports %s", si, m.label(s.chain[h]), h, chain[h].Label)
 			}
+		}
+	}
+}
+
+// drainWhile moves announced headers from the subscriber channels into their pending lists until
+// done is closed (order per subscriber is preserved; what is still buffered afterwards is read by
+// checkStream).
+func (m *M) drainWhile(inst *Inst, done <-chan struct{}) {
+	for {
+		select {
+		case <-done:
+			return
+		default:
+		}
+		got := false
+		for _, s := range inst.subs {
+			select {
+			case h, ok := <-s.ch:
+				if ok {
+					s.pending = append(s.pending, h)
+					got = true
+				}
+			default:
+			}
+		}
+		if !got {
+			time.Sleep(20 * time.Microsecond)
 		}
 	}
 }
